@@ -49,6 +49,9 @@ type Engine struct {
 	Trials  int // how often the concurrent part of a history is repeated (fresh server each time)
 	seen    run.Seen
 	trial   uint64
+	// Wedged: a history deadlocked the handlers; the server of that history cannot be stopped (its
+	// locks are held for good), so nothing more is run in this process
+	Wedged bool
 }
 
 func New(d *drv.Driver) *Engine {
@@ -99,7 +102,7 @@ func (e *Engine) boundPorts() string {
 }
 
 func (e *Engine) Run(ops []string, res *report.Result) *report.Failure {
-	for t := 0; t < e.Trials; t++ {
+	for t := 0; t < e.Trials && !e.Wedged; t++ {
 		if f := e.runOnce(ops, res); f != nil {
 			return f
 		}
@@ -139,6 +142,9 @@ func (e *Engine) runOnce(ops []string, res *report.Result) *report.Failure {
 	defer func() {
 		toxiproxy.VerifYield = func(string) {}
 		toxiproxy.VerifNewProxy = func(*toxiproxy.Proxy) {}
+		if e.Wedged {
+			return
+		}
 		capture()
 		srv.Collection.Clear()
 		for p := range seenProxies {
@@ -245,7 +251,10 @@ func (e *Engine) runOnce(ops []string, res *report.Result) *report.Failure {
 		deadlocked = true
 	}
 	close(stopChurn)
-	<-churnDone
+	select {
+	case <-churnDone:
+	case <-time.After(2 * time.Second): // (the churn's own look at the registry can be stuck behind a deadlock)
+	}
 	if deadlocked {
 		var stuck []string
 		mu.Lock()
@@ -255,6 +264,7 @@ func (e *Engine) runOnce(ops []string, res *report.Result) *report.Failure {
 			}
 		}
 		mu.Unlock()
+		e.Wedged = true
 		return fail("oracle", "requests did not return within 10 s: "+strings.Join(stuck, " ; "), "every request returns", "blocked", "e7:C16:deadlock")
 	}
 	toxiproxy.VerifYield = func(string) {}
@@ -262,9 +272,22 @@ func (e *Engine) runOnce(ops []string, res *report.Result) *report.Failure {
 	ports := e.boundPorts()
 	// ---- C06, under concurrency: a create that was refused (4xx) has left nothing behind - in
 	// particular no listener on the address it named that no enabled proxy of the registry owns
+	// (not when a ProxyUpdate or a populate runs alongside: the recorded races of ProxyUpdate leave
+	// a listener of their own - a zombie on an unregistered object -, which is C16's finding and
+	// not the refused create's doing)
+	otherBinder := false
 	for _, c := range calls {
 		f := strings.SplitN(c.op, " ", 4)
-		if len(f) < 4 || f[0] != "POST" || strings.Trim(f[1], "/") != "proxies" || c.status < 400 || c.status >= 500 {
+		if len(f) >= 2 && (f[0] == "POST" || f[0] == "PATCH") {
+			segs := strings.Split(strings.Trim(f[1], "/"), "/")
+			if (len(segs) == 2 && segs[0] == "proxies") || (len(segs) == 1 && segs[0] == "populate") {
+				otherBinder = true
+			}
+		}
+	}
+	for _, c := range calls {
+		f := strings.SplitN(c.op, " ", 4)
+		if otherBinder || len(f) < 4 || f[0] != "POST" || strings.Trim(f[1], "/") != "proxies" || c.status < 400 || c.status >= 500 {
 			continue
 		}
 		m := listenPortRe.FindStringSubmatch(f[3])
